@@ -1,4 +1,5 @@
 import TinyFlux.Audit.Tool
 import TinyFlux.Props.C03
 import TinyFlux.Props.C03State
+import TinyFlux.Props.C03Witness
 #audit TinyFlux.Props.C03
